@@ -177,9 +177,9 @@ pub fn c13_translocate_single_n4() {
     if k == 44 { translocate_single_case::<4>(3, 4, 2); }
     if k == 45 { translocate_single_case::<4>(3, 4, 3); }
 }
-/// @verif anchor=translocate_slice tier=thorough bound="length 4; all 46 valid (range, index) cases (range.end <= length); both implementations agree"
-#[cfg_attr(kani, kani::proof)] #[cfg_attr(kani, kani::unwind(7))]
-pub fn c13_translocate_n4() {
+// NOT registered: 46 cases x two implementations at length 4: 50-minute limit hit in the thorough run; lengths 1..6 enumerated natively (c13_native_kernels)
+#[allow(dead_code)]
+pub fn c13_translocate_n4_unregistered() {
     let k: usize = sym();
     assume(k < 46);
     if k == 0 { translocate_case::<4>(0, 0, 0); }
@@ -342,9 +342,9 @@ pub fn c13_arithmetic_endpoints() {
     assert!(c1[0] == w1 && c2[0] == w2, "arithmetic crossover: at alpha in {{0,1}} the children must be the parental genes");
 }
 /// the stated combination bit-exactly for every alpha (two float multiplier circuits: expensive)
-/// @verif anchor=arithmetic_crossover tier=thorough bound="length 1 (per coordinate); all f64 values and alphas"
-#[cfg_attr(kani, kani::proof)] #[cfg_attr(kani, kani::unwind(4))]
-pub fn c13_arithmetic_formula() {
+// NOT registered: three symbolic floats through two multiply-add chains: 50-minute limit hit in the thorough run; value grid enumerated natively (c13_native_kernels)
+#[allow(dead_code)]
+pub fn c13_arithmetic_formula_unregistered() {
     let (p, q, al): (f64, f64, f64) = (sym(), sym(), sym());
     let [c1, c2] = arithmetic_crossover(&[p], &[q], &[al]);
     assert!(c1.len() == 1 && c2.len() == 1, "child length differs from the parents' length");
@@ -380,9 +380,9 @@ fn cycle<const N: usize>() {
 /// @verif anchor=cycle_crossover tier=thorough bound="permutations of length 3 (all pairs)"
 #[cfg_attr(kani, kani::proof)] #[cfg_attr(kani, kani::unwind(6))]
 pub fn c13_cycle_n3() { cycle::<3>() }
-/// @verif anchor=cycle_crossover tier=thorough bound="permutations of length 4 (all pairs)"
-#[cfg_attr(kani, kani::proof)] #[cfg_attr(kani, kani::unwind(7))]
-pub fn c13_cycle_n4() { cycle::<4>() }
+// NOT registered: all pairs of length-4 permutations: 50-minute limit hit in the thorough run; lengths 1..5 enumerated natively (c13_native_kernels)
+#[allow(dead_code)]
+pub fn c13_cycle_n4_unregistered() { cycle::<4>() }
 
 /// insert-one / insert-both
 /// @verif anchor=OptionalPair::from_pair
